@@ -359,7 +359,7 @@ func schnorrCase[GE algebra.PrimeGroupElement[GE, S], S algebra.PrimeFieldElemen
 // the group equation is evaluated in the model; ONE alteration; verdicts must agree.
 func TestSchnorrGeneric(t *testing.T) {
 	const test = "SchnorrGeneric"
-	vlib.Check(t, 700, func(t *rapid.T) {
+	vlib.Check(t, 600, func(t *rapid.T) {
 		switch rapid.SampledFrom([]string{"k256", "k256", "p256", "p256", "pallas", "vesta", "ed25519", "ed25519", "g1"}).Draw(t, "group") {
 		case "k256":
 			schnorrCase(t, test, schK256)
